@@ -145,6 +145,11 @@ func c11(g *Gen) {
 			progC[k].Src = pgWithComments(progC[k].Src) // a doc comment above every declaration, field and method
 		}
 		writeModule(dir, progC)
+		for _, gp := range progC {
+			// a doc.go with package-wide tags: they are the package's comments whatever the history
+			d := filepath.Join(dir, strings.TrimPrefix(gp.Path, pgModule+"/"))
+			os.WriteFile(filepath.Join(d, "doc.go"), []byte("// +k8s:deepcopy-gen=package\n// +groupName="+gp.Name+".example.io\n\n// Package "+gp.Name+" is documented in its doc.go.\npackage "+gp.Name+"\n"), 0644)
+		}
 		os.Chdir(dir) // LoadPackagesTo has no config: it loads relative to the working directory
 		var reqL []string
 		for p := range req {
